@@ -46,7 +46,8 @@ Proof.
   destruct c as [ch cl]. destruct e as [[eh el]|]; [|reflexivity].
   unfold is_new_master, same_id. cbn [fixF1 sv_fixed]. rewrite leb_lex.
   unfold u128_eqb, hi, lo; cbn [fst snd].
-  cbv [isNewMaster_body isNewMaster_env exec exec_s eval evals lookup u128_ptr String.eqb Ascii.eqb Bool.eqb bin coerce].
+  cbv [isNewMaster_body isNewMaster_env exec run_l exec_s eval evals lookup u128_ptr String.eqb Ascii.eqb Bool.eqb bin coerce
+       restore List.length Nat.sub skipn].
   split_cmp.
 Qed.
 
